@@ -168,6 +168,7 @@ bool Prism::Build(const Syllabary& syllabary,
   metadata->num_syllables = num_syllables;
   metadata->num_spellings = num_spellings;
   metadata_ = metadata;
+  RIME_VERIF_CRASHPOINT("Prism::Build:metadata-fields");
   // alphabet
   {
     set<char> alphabet;
@@ -189,6 +190,7 @@ bool Prism::Build(const Syllabary& syllabary,
   std::memcpy(array, trie_->array(), image_size);
   metadata->double_array = array;
   metadata->double_array_size = array_size;
+  RIME_VERIF_CRASHPOINT("Prism::Build:double-array");
   // building spelling map
   if (script) {
     map<string, SyllableId> syllable_to_id;
@@ -226,10 +228,12 @@ bool Prism::Build(const Syllabary& syllabary,
     }
     metadata->spelling_map = spelling_map;
     spelling_map_ = spelling_map;
+    RIME_VERIF_CRASHPOINT("Prism::Build:spelling-map");
   }
   // at last, complete the metadata
   std::strncpy(metadata->format, kPrismFormat,
                prism::Metadata::kFormatMaxLength);
+  RIME_VERIF_CRASHPOINT("Prism::Build:format-tag");
   return true;
 }
 
